@@ -457,11 +457,13 @@ fn main() {
                 wall,
                 b.stats.group("verdict/")
             );
-            if harness_bad > 0 {
-                eprintln!("harness error: generator and parser disagree on the include statements of {} pristine diagnostic-free files", harness_bad);
-                std::process::exit(2);
-            }
             if reported.is_empty() {
+                if harness_bad > 0 {
+                    // only when there is no violation to report: on a broken tree the disagreement
+                    // is a symptom (e.g. shifted tree offsets) that some oracle reports as well
+                    eprintln!("harness error: generator and parser disagree on the include statements of {} pristine diagnostic-free files", harness_bad);
+                    std::process::exit(2);
+                }
                 println!("OK property={} held on everything explored", property);
                 std::process::exit(0);
             }
